@@ -195,6 +195,57 @@ func init() {
 		e.shapeDef(s, um, "Unmarshaler.processNamedFieldWithValue", "withValueShape")
 		e.shapeDef(s, um, "Unmarshaler.processNamedField", "namedFieldShape")
 		e.shapeDef(s, fo, "fieldOptions.toOptionsWithContext", "toOptionsWithContextShape")
+		// the unmarshalers of rest/httpx and rest/internal/encoding: key and options
+		uopts := func(rel, varName, lean string) {
+			f := s.file(rel)
+			var out []string
+			if f != nil {
+				ast.Inspect(f, func(n ast.Node) bool {
+					vs, ok := n.(*ast.ValueSpec)
+					if !ok {
+						return true
+					}
+					for i, nm := range vs.Names {
+						if nm.Name == varName && i < len(vs.Values) {
+							if call, ok := vs.Values[i].(*ast.CallExpr); ok {
+								out = append(out, s.src(call.Fun))
+								for _, a := range call.Args {
+									out = append(out, s.src(a))
+								}
+							}
+						}
+					}
+					return true
+				})
+			}
+			if len(out) == 0 {
+				e.errors = append(e.errors, "unmarshaler "+varName+" not found in "+rel)
+			}
+			e.stringList(lean, "constructor call of "+varName+" in "+rel, out)
+		}
+		uopts("rest/httpx/requests.go", "formUnmarshaler", "formUnmarshalerCall")
+		uopts("rest/httpx/requests.go", "pathUnmarshaler", "pathUnmarshalerCall")
+		uopts("rest/internal/encoding/parser.go", "headerUnmarshaler", "headerUnmarshalerCall")
+		uopts("core/mapping/jsonunmarshaler.go", "jsonUnmarshaler", "jsonUnmarshalerCall")
+		// the dependency key under a canonical-key function
+		if fd := s.findFunc(um, "Unmarshaler.parseOptionsWithContext"); fd != nil {
+			var ds []string
+			ast.Inspect(fd.Body, func(n ast.Node) bool {
+				if kv, ok := n.(*ast.KeyValueExpr); ok && s.src(kv.Key) == "OptionalDep" {
+					ds = append(ds, s.src(kv.Value))
+				}
+				return true
+			})
+			e.stringList("canonicalDepExpr", "value given to OptionalDep in parseOptionsWithContext", ds)
+		} else {
+			e.stringList("canonicalDepExpr", "MISSING", []string{"MISSING"})
+		}
+		if fd := s.findFunc(um, "canonicalDep"); fd != nil {
+			e.stringList("canonicalDepStmts", "top-level statements of canonicalDep", c08IfConds(s, fd))
+		} else {
+			e.errors = append(e.errors, "function canonicalDep not found in "+um)
+			e.stringList("canonicalDepStmts", "MISSING", []string{"MISSING"})
+		}
 		// assignments to `optional` in toOptionsWithContext, in source order
 		if fd := s.findFunc(fo, "fieldOptions.toOptionsWithContext"); fd != nil {
 			var as []string
